@@ -259,6 +259,10 @@ func PrepareForPackager(
 			if destinationOccupied && presentContent.Type != TypeImplicitDir {
 				return nil, contentCollisionError(content, presentContent)
 			}
+			// a non-directory at the same path is a collision as well
+			if presentContent, destinationOccupied := contentMap[NormalizeAbsoluteFilePath(content.Destination)]; destinationOccupied {
+				return nil, contentCollisionError(content, presentContent)
+			}
 
 			err := addParents(contentMap, content.Destination, mtime)
 			if err != nil {
@@ -274,7 +278,7 @@ func PrepareForPackager(
 			// have been expanded so we can just ignore it, it will be created
 			// by another content element again anyway
 		case TypeRPMGhost, TypeSymlink, TypeRPMDoc, TypeRPMLicence, TypeRPMLicense, TypeRPMReadme, TypeDebChangelog:
-			presentContent, destinationOccupied := contentMap[NormalizeAbsoluteFilePath(content.Destination)]
+			presentContent, destinationOccupied := occupant(contentMap, content.Destination)
 			if destinationOccupied {
 				return nil, contentCollisionError(content, presentContent)
 			}
@@ -347,6 +351,14 @@ func isRelevantForPackager(packager string, content *Content) bool {
 
 func addParents(contentMap map[string]*Content, path string, mtime time.Time) error {
 	for _, parent := range sortedParents(path) {
+		// a non-directory cannot be the parent of anything
+		if c, ok := contentMap[NormalizeAbsoluteFilePath(parent)]; ok {
+			return contentCollisionError(&Content{
+				Type:        "parent directory for " + path,
+				Destination: parent,
+			}, c)
+		}
+
 		parent = NormalizeAbsoluteDirPath(parent)
 		// check for content collision and just overwrite previously created
 		// implicit directories
@@ -408,7 +420,7 @@ func addGlobbedFiles(
 ) error {
 	for src, dst := range globbed {
 		dst = NormalizeAbsoluteFilePath(dst)
-		presentContent, destinationOccupied := all[dst]
+		presentContent, destinationOccupied := occupant(all, dst)
 		if destinationOccupied {
 			c := *origFile
 			c.Destination = dst
@@ -517,10 +529,35 @@ func addTree(
 			c.FileInfo.Mode = tree.FileInfo.Mode
 		}
 
+		if c.Type == TypeDir || c.Type == TypeImplicitDir {
+			if present, occupied := all[NormalizeAbsoluteFilePath(destination)]; occupied {
+				return contentCollisionError(c, present)
+			}
+			if present, occupied := all[c.Destination]; occupied && present.Type != TypeImplicitDir {
+				if c.Type == TypeImplicitDir {
+					// an explicitly declared directory takes precedence
+					return nil
+				}
+				return contentCollisionError(c, present)
+			}
+		} else if present, occupied := occupant(all, destination); occupied {
+			return contentCollisionError(c, present)
+		}
+
 		all[c.Destination] = c.WithFileInfoDefaults(umask, mtime)
 
 		return nil
 	})
+}
+
+// occupant returns the content already present at the given destination, be
+// it a non-directory or a (possibly implicit) directory.
+func occupant(contentMap map[string]*Content, dst string) (*Content, bool) {
+	if c, ok := contentMap[NormalizeAbsoluteFilePath(dst)]; ok {
+		return c, true
+	}
+	c, ok := contentMap[NormalizeAbsoluteDirPath(dst)]
+	return c, ok
 }
 
 var ErrContentCollision = fmt.Errorf("content collision")
